@@ -734,6 +734,41 @@ def reject_literal_cases():
     return [(s, {"src": s, "tl": 20, "mut": "malformed " + cat, "key": "bad:" + s}) for cat, xs in MALFORMED.items() for s in xs]
 
 
+
+# ---------------------------------------------------------------------------------------------
+# compound primaries continued by an operator inside a delimited position. The parser has dedicated (iterative) paths for
+# runs of `(` and `[`; a literal closed inside such a run is only the *start* of the enclosing element / argument / operand.
+
+PRIMARIES = [("array", "[1, 2]"), ("array-nested", "[[1], [2]]"), ("array-empty", "[]"), ("array-empty-nested", "[[]]"),
+             ("array-3deep", "[[[7]]]"), ("object", "({k: 1})"), ("sequence", "(1, [2])"), ("paren2", "((3))"),
+             ("function", "(function () { return [7] })"), ("string", '"ab"'), ("regex", "/b/"), ("new", "new Array(2)"),
+             ("ident", "a"), ("unary-array", "-[3]"), ("typeof-array", "typeof []"), ("call", "f([1], [2])")]
+CONTS = [("none", ""), ("dot", ".length"), ("index", "[0]"), ("index2", "[0][0]"), ("method", ".concat([9])"),
+         ("callback", ".map(function (x) { return [x] })"), ("call", "()"), ("plus", " + 1"), ("plus-array", " + [1]"),
+         ("times", " * 2"), ("conditional", " ? [1] : [2]"), ("or", " || [1]"), ("and", " && [1]"), ("in", " in {}"),
+         ("instanceof", " instanceof Array"), ("equals", " == 1"), ("update", "++"), ("assign", " = 3"), ("index-assign", "[0] = 3"),
+         ("comma", ", [4]"), ("adjacent", " [0, 1]"), ("newline-index", "\n[0]")]
+PCTX = [("plain", "r = %s;"), ("elem-only", "r = [%s];"), ("elem-last", "r = [0, %s];"), ("elem-first", "r = [%s, 0];"),
+        ("elem-after-array", "r = [[0], %s];"), ("elem-before-array", "r = [%s, [0]];"), ("elem-nested", "r = [[%s]];"),
+        ("elem-nested-last", "r = [[1], [2, %s]];"), ("arg-only", "r = f(%s);"), ("arg-last", "r = f(0, %s);"),
+        ("prop-value", "r = {k: %s};"), ("paren", "r = (%s);"), ("paren2", "r = ((%s));"), ("paren-in-array", "r = [(%s)];"),
+        ("array-in-paren", "r = ([%s]);"), ("indexed-literal", "r = [%s][0];"), ("cond-branch", "r = [0 ? 0 : %s];"),
+        ("if-test", "if (%s) r = 1;"), ("for-init", "for (r = %s; false;);"), ("return", "r = function () { return %s }();"),
+        ("computed-key", "r = a[%s];"), ("statement", "%s;")]
+_PROLOGUE = "var a = [5, 6], r = 0; function f(x, y) { return [x, y] }\n"
+
+
+def primary_cases():
+    out = []
+    for pn, ptxt in PRIMARIES:
+        for cn, ctxt in CONTS:
+            for xn, xtxt in PCTX:
+                if xn == "statement" and ptxt.startswith("(function"):
+                    pass
+                src = _PROLOGUE + (xtxt % (ptxt + ctxt)) + "\n[r, a]"
+                out.append(("P|prim=%s|cont=%s|ctx=%s" % (pn, cn, xn), {"src": src, "tl": 20, "prim": pn, "cont": cn, "ctx": xn}))
+    return out
+
 # =============================================================================================
 # spaces
 
@@ -777,6 +812,11 @@ def core_spaces():
     sp.append(_lit_space("c13_lit_string", string_cases, "40 characters x {raw, \\xHH, \\uHHHH, \\u{H}, single-char escape, line "
                          "continuation} x both quote styles; non-trivial = escaped or non-printable-ASCII", "40 x ~9 x 2"))
     sp.append(_lit_space("c13_lit_strpair", string_pair_cases, "all ordered pairs of 13 escape forms adjacent in one literal, both quotes", "13^2 x 2"))
+    sp.append(Space("c13_primary_ctx", RUN, primary_cases, oracle="table",
+                    rule="%d compound primaries x %d continuations (member, call, operators, assignment, comma, adjacency) x %d "
+                         "delimited positions (array element, argument, property value, parenthesis runs, ...); expected = V8 "
+                         "(value, or SyntaxError for the invalid combinations)" % (len(PRIMARIES), len(CONTS), len(PCTX)),
+                    bound="%d x %d x %d" % (len(PRIMARIES), len(CONTS), len(PCTX)), batch=400))
     sp.append(Space("c13_reject_delete", RUN, reject_delete_cases, oracle="table",
                     rule="each closing ) ] }, closing quote, last */ and regex terminator deleted in turn from ~570 valid programs; "
                          "V8 reports an early SyntaxError for every case", bound="programs x closers", batch=400))
@@ -1019,6 +1059,15 @@ def signature(sp, cid, payload, exp, obs):
         k = mismatch_kind(exp, obs)
         form = p.get("form", "?")
         return "literal|%s|%s" % (form, k), "literal form %s (e.g. `%s`): %s" % (form, eg, k)
+    if name == "c13_primary_ctx":
+        if tail(exp) == "Esyntax" and tail(obs) != "Esyntax":
+            k = "accepted where V8 reports a SyntaxError"
+        elif tail(obs) == "Esyntax":
+            k = "rejected with a SyntaxError where V8 runs it"
+        else:
+            k = mismatch_kind(exp, obs)
+        return "primary|%s|%s|%s" % (p.get("cont"), p.get("ctx"), k), (
+            "compound primary continued by `%s` in position %s (e.g. %s): %s" % (p.get("cont"), p.get("ctx"), p.get("prim"), k))
     if name.startswith("c13_reject"):
         if tail(obs).startswith("R"):
             k = "accepted and run to completion"
